@@ -52,12 +52,15 @@ type seqHistory struct {
 	ts     int64
 	failed bool
 	// oracle bookkeeping
-	downFcnt   map[string]map[int]bool // (dev eui + nwk key) -> downlink counters seen (C07)
-	accepted   map[string]map[int]bool // (dev eui + nwk key) -> uplink counters recorded (C03)
-	queued     map[protocol.EUI][]queuedMsg
-	lastJAKeys map[protocol.EUI]string
-	refs       map[protocol.EUI]*refDev
-	search     bool // the correspondence with the model broke: keep driving the implementation alone and judge it with the reference observer
+	downFcnt map[string]map[int]bool // (dev eui + nwk key) -> downlink counters seen (C07)
+	accepted map[string]map[int]bool // (dev eui + nwk key) -> uplink counters recorded (C03)
+	queued   map[protocol.EUI][]queuedMsg
+	// creation stamps of queued messages: the last one per device and the last one of all
+	lastCreated    map[protocol.EUI]int64
+	lastCreatedAny int64
+	lastJAKeys     map[protocol.EUI]string
+	refs           map[protocol.EUI]*refDev
+	search         bool // the correspondence with the model broke: keep driving the implementation alone and judge it with the reference observer
 }
 
 type queuedMsg struct {
@@ -434,6 +437,14 @@ func runPipeSeq(c *ctx) error {
 					n = 55 + r.Intn(200) // around and over the payload limits of the data rates (59 / 123 / 230)
 				}
 				m := queuedMsg{created: h.ts, port: 1 + r.Intn(223), data: r.Bytes(n), ack: r.Intn(2) == 0}
+				if lc, ok := h.lastCreated[d.eui]; (!ok || lc != h.lastCreatedAny) && h.lastCreatedAny != 0 && r.Intn(3) == 0 {
+					// the same creation stamp as the last message queued for another device (a fan-out within one
+					// millisecond): the queue is keyed by device and stamp, the devices have nothing to do with each other
+					m.created = h.lastCreatedAny
+				}
+				if h.lastCreated == nil {
+					h.lastCreated = map[protocol.EUI]int64{}
+				}
 				err := rig.st.CreateDownstreamMessage(d.eui, model.DownstreamMessage{DeviceEUI: d.eui, Data: fmt.Sprintf("%x", m.data), Port: uint8(m.port), Ack: m.ack, CreatedTime: m.created})
 				a, lerr := h.lean("submit", fmt.Sprintf("pipe.submit dev=%s created=%d port=%d data=%s ack=%s", hx.H(d.eui.Octets[:]), m.created, m.port, hx.H(m.data), b01(m.ack)))
 				if lerr != nil {
@@ -443,6 +454,11 @@ func runPipeSeq(c *ctx) error {
 					h.fail("mismatch", "pipe-submit", "submission accepted by one side only", fmt.Sprint(err), a)
 				}
 				if err == nil {
+					h.lastCreated[d.eui], h.lastCreatedAny = m.created, m.created
+					if m.created != h.ts {
+						c.res.Count("submit=shared-creation-stamp")
+					}
+
 					h.queued[d.eui] = append(h.queued[d.eui], m)
 					h.refSubmit(d, m)
 				}
